@@ -66,8 +66,9 @@ def _alias_pass(fn) -> bool:
             # loop body), and the aliased reference itself must not be re-bound in the function (`old = self.x; self.x = new`)
             if any(isinstance(x, ast.Name) and len(counts.get(x.id, [])) > 1 for x in ast.walk(n.value)):
                 continue
-            if norm(n.value) in stored:
-                continue
+            ref = norm(n.value)
+            if any(ref == st or ref.startswith(st + ".") or ref.startswith(st + "[") for st in stored):
+                continue  # the reference (or what it is reached through) is re-bound: the alias holds the old object
             defs[name] = n
     if not defs:
         return False
